@@ -237,7 +237,28 @@ func universe(depth int) []reflect.Type {
 	if depth >= 2 {
 		c.MaxPerLevel = 24
 	}
-	return typeuniv.Universe(c)
+	ts := typeuniv.Universe(c)
+	// hand-picked deeper composites (containers of containers of pointer-like elements) present in every tier
+	type inner struct {
+		P *int
+		S []string
+		M map[string]*float64 `json:",omitempty"`
+	}
+	extra := []any{
+		map[string][2]*int{}, map[string][2][]int{}, map[int][2]map[string]int{}, []map[string][2]*string{}, map[string][2]inner{}, [][2][]*int8{},
+		map[string][]map[string][]int{}, map[string]*[2]*inner{}, [2]map[string][2]any{}, map[string]map[string][2]*bool{}, []*[]*[]int{}, map[uint8][2][]byte{},
+		struct{ A [2]map[string]*inner }{}, map[string][]inner{}, [][]inner{},
+	}
+	seen := map[reflect.Type]bool{}
+	for _, t := range ts {
+		seen[t] = true
+	}
+	for _, e := range extra {
+		if t := reflect.TypeOf(e); !seen[t] {
+			ts = append(ts, t)
+		}
+	}
+	return ts
 }
 
 func replayCase(cs Case) string {
